@@ -751,14 +751,6 @@ Proof.
   repeat match goal with |- context [if ?c then _ else _] => destruct c eqn:? end; eexists; reflexivity.
 Qed.
 
-(* BEGIN jsonschema-list-elements (holds as long as walkList copies the json.Number elements of a list default) *)
-(* JSON Schema, LIST defaults: the elements stay json.Number, which %#v prints as QUOTED strings: Python stores
-   strings (re-typed) *)
-Theorem default_altered_jsonschema_list_numbers : forall numtext m e,
-  py_lit_json (fe_value "jsonschema" numtext (JArr [JNum m e])) = POk (JArr [JStr (numtext m e)]).
-Proof. intros. reflexivity. Qed.
-(* END jsonschema-list-elements *)
-
 (* the JSON Schema front-end drops the default of an enumeration, of a union and of an inline object; the OpenAPI
    front-end those of unions and inline objects (walkEnum / walkOneOf / walkObject never read `default`) *)
 Theorem defaults_dropped_by_front_ends : forall numtext j,
